@@ -86,6 +86,8 @@ def pairs_of(tier, inputs):
     for i, inp in enumerate(inputs):
         if tier == "quick":
             out.append((inp, sets[i % len(sets)] if inp["synth"] else sets[0]))
+            if inp["synth"] and "-push0" not in out[-1][1]:
+                out.append((inp, ["-greedy", "-push0"]))        # every synthesized document also with PUSH0 disabled
         else:
             for o in (sets if inp["synth"] else sets[:3]):
                 out.append((inp, o))
